@@ -1133,6 +1133,36 @@ class ndarray:
         leaves = [x if isinstance(x, bool) else mkbool(x) for x in out]
         return ndarray._mk(shape, _scalar_dt("b1"), leaves, list(range(len(leaves))))
 
+    def _ord_array(self, other, op):
+        """elementwise <, <=, >, >= for integer arrays (ordering of symbolic floats is not modelled)"""
+        o = asarray(other)
+        if self._structured or o._structured:
+            raise TypeError("'<' not supported between structured arrays")
+        if self.dtype.code[0] not in "iub" or o.dtype.code[0] not in "iub":
+            raise UnsupportedInShim("ordering comparison of float arrays")
+        shp = _broadcast_shapes(self.shape, o.shape)
+        ai, bi = _broadcast_idx(self, shp), _broadcast_idx(o, shp)
+        vals = []
+        for pa, pb in zip(ai, bi):
+            a, b = self._buf[pa], o._buf[pb]
+            a = (1 if bool(a) else 0) if self.dtype.code == "b1" else a
+            b = (1 if bool(b) else 0) if o.dtype.code == "b1" else b
+            r = op(a, b)
+            vals.append(r if isinstance(r, (bool, SBool)) else bool(r))
+        return ndarray._mk(shp, _scalar_dt("b1"), vals, list(range(len(vals))))
+
+    def __lt__(self, other):
+        return self._ord_array(other, operator.lt)
+
+    def __le__(self, other):
+        return self._ord_array(other, operator.le)
+
+    def __gt__(self, other):
+        return self._ord_array(other, operator.gt)
+
+    def __ge__(self, other):
+        return self._ord_array(other, operator.ge)
+
     def __eq__(self, other):
         return self._cmp_array(other, False)
 
